@@ -1,10 +1,14 @@
 // ctl_shared.cpp — controlled-schedule scenarios for one shared_future state (C17).
 // engine: sf     threads: 0 = creator (constructs, hands out copies, drops its own handles),
 //                         1 = resolver (owns the promise), 2.. = users (copy / poll / await / drop)
+// engines: sf (instance counted value), sf_void, sf_uptr (move-only), sf_ref (reference)
 // ops: [0 mode v] construction mode   0 ctor(fn(promise))  1 ctor(fn -> future)  2 default + get_promise()
 //                                     3 default + init_if_needed + copy + get_promise() on the copy  4 set_value(v)
+//                                     5 ctor(fn -> async coroutine .start()): the coroutine produces the result
 //      [1 kind d] resolver            0 value d  1 exception d  2 drop
-//      [2 cp kind] user               cp: copy the handle first and drop the original
+//      [2 cp kind] user               cp: 0 use the handle as received  1 copy-construct and drop the original
+//                                         2 copy-assign onto a live handle (old state released), drop the original
+//                                         3 move-assign onto a live handle  4 self-assignment
 //                                     kind 0 drop  1 poll ready()/value()  2 co_await  3 sync()  4 callback awaiter
 //      [9 ...] schedule
 // The harness contains no expected values.
@@ -36,15 +40,59 @@ struct test_exc {
     explicit test_exc(long x) : code(x), c(x) {}
 };
 
-using SF = shared_future<counted>;
+static counted g_refcells[64] = {0, 0, 0, 0, 0, 0, 0, 0, 0, 0, 0, 0, 0, 0, 0, 0, 0, 0, 0, 0, 0, 0, 0, 0, 0, 0, 0, 0, 0, 0, 0, 0,
+                                  0, 0, 0, 0, 0, 0, 0, 0, 0, 0, 0, 0, 0, 0, 0, 0, 0, 0, 0, 0, 0, 0, 0, 0, 0, 0, 0, 0, 0, 0, 0, 0};
+static std::atomic<int> g_refnext{0};
+
+// value types: instance counted, void, move-only, reference
+template <typename T>
+struct traits;
+template <>
+struct traits<counted> {
+    static bool set(promise<counted> &p, long v) { return p(counted(v)); }
+    static long get(counted &x) { return x.v; }
+    static shared_future<counted> pre(long v) { return shared_future<counted>::set_value(v); }
+    static counted make(long v) { return counted(v); }
+};
+template <>
+struct traits<void> {
+    static bool set(promise<void> &p, long) { return p(); }
+    static shared_future<void> pre(long) { return shared_future<void>::set_value(); }
+};
+template <>
+struct traits<std::unique_ptr<counted>> {
+    using U = std::unique_ptr<counted>;
+    static bool set(promise<U> &p, long v) { return p(std::make_unique<counted>(v)); }
+    static long get(U &x) { return x ? x->v : -12345; }
+    static shared_future<U> pre(long v) { return shared_future<U>::set_value(std::make_unique<counted>(v)); }
+    static U make(long v) { return std::make_unique<counted>(v); }
+};
+template <>
+struct traits<counted &> {
+    static counted &cell(long v) {
+        counted &c = g_refcells[g_refnext++ % 64];
+        c.v = v;
+        return c;
+    }
+    static bool set(promise<counted &> &p, long v) { return p(cell(v)); }
+    static long get(counted &x) { return x.v; }
+    static shared_future<counted &> pre(long v) { return shared_future<counted &>::set_value(cell(v)); }
+    static counted &make(long v) { return cell(v); }
+};
 
 struct Seen {
     long done = 0, kind = 9, datum = 0, runs = 0;
 };
 
-static void read_into(SF &h, Seen &s) {
+template <typename T>
+static void read_into(shared_future<T> &h, Seen &s) {
     try {
-        s.datum = h.value().v;
+        if constexpr (std::is_void_v<T>) {
+            h.value();
+            s.datum = 0;
+        } else {
+            s.datum = traits<T>::get(h.value());
+        }
         s.kind = 1;
     } catch (const await_canceled_exception &) {
         s.kind = 0;
@@ -59,10 +107,16 @@ static void read_into(SF &h, Seen &s) {
 }
 
 // the coroutine frame owns the handle: it is released when the coroutine finishes
-static async<void> coro_waiter(SF h, Seen &s) {
+template <typename T>
+static async<void> coro_waiter(shared_future<T> h, Seen &s) {
     try {
-        counted &r = co_await h;
-        s.datum = r.v;
+        if constexpr (std::is_void_v<T>) {
+            co_await h;
+            s.datum = 0;
+        } else {
+            auto &r = co_await h;
+            s.datum = traits<T>::get(r);
+        }
         s.kind = 1;
     } catch (const await_canceled_exception &) {
         s.kind = 0;
@@ -77,10 +131,12 @@ static async<void> coro_waiter(SF h, Seen &s) {
 }
 
 // the callback context owns the handle: it is released at the end of the callback
+template <typename T>
 struct CbCtx {
+    using SF = shared_future<T>;
     SF h;
     Seen *s;
-    co_awaiter<future<counted>> aw;
+    co_awaiter<future<T>> aw;
     CbCtx(SF &&hh, Seen &se) : h(std::move(hh)), s(&se), aw(h.operator co_await()) {}
     static suspend_point<void> fn(awaiter *, void *u) noexcept {
         auto *c = static_cast<CbCtx *>(u);
@@ -93,15 +149,41 @@ struct CbCtx {
 };
 
 // promise constructed in place (no move => no extra claim/dtor points) or moved in from the init function
+template <typename T>
 struct Holder {
-    promise<counted> p;
-    explicit Holder(promise<counted> &&x) : p(std::move(x)) {}
-    explicit Holder(SF &s) : p(s.get_promise()) {}
+    promise<T> p;
+    explicit Holder(promise<T> &&x) : p(std::move(x)) {}
+    explicit Holder(shared_future<T> &s) : p(s.get_promise()) {}
 };
+
+// co_await on the gate that tells the harness when the coroutine is parked (the resolver may open the gate then)
+struct GateAw {
+    co_awaiter<future<void>> aw;
+    std::atomic<bool> *parked;
+    bool await_ready() { return aw.await_ready(); }
+    bool await_suspend(std::coroutine_handle<> h) {
+        bool r = aw.await_suspend(h);
+        parked->store(true);
+        return r;
+    }
+    void await_resume() {}
+};
+
+// construction mode 5: the shared state is the future of a coroutine that finishes when the gate opens
+template <typename T>
+static async<T> producer(future<void> &gate, std::atomic<bool> *parked, long rkind, long rdatum) {
+    co_await GateAw{gate.operator co_await(), parked};
+    if (rkind == 1) throw test_exc(rdatum);
+    if (rkind == 2) throw await_canceled_exception();   // a coroutine cannot drop its promise: same observation
+    if constexpr (std::is_void_v<T>) co_return;
+    else co_return traits<T>::make(rdatum);
+}
 
 static long g_leaks = 0;
 
+template <typename T>
 static void run_case(const vh::Case &cs) {
+    using SF = shared_future<T>;
     struct UDecl {
         long cp, kind;
     };
@@ -111,11 +193,11 @@ static void run_case(const vh::Case &cs) {
     std::vector<long> sched;
     for (auto &op : cs.ops) {
         if (op.empty()) continue;
-        if (op[0] == 0 && op.size() == 3 && op[1] >= 0 && op[1] <= 4) {
+        if (op[0] == 0 && op.size() == 3 && op[1] >= 0 && op[1] <= 5) {
             if (!have_mode) { mode = op[1]; mval = op[2]; have_mode = true; }
         } else if (op[0] == 1 && op.size() == 3 && op[1] >= 0 && op[1] <= 2) {
             if (!have_res) { rkind = op[1]; rdatum = op[2]; have_res = true; }
-        } else if (op[0] == 2 && op.size() == 3 && op[1] >= 0 && op[1] <= 1 && op[2] >= 0 && op[2] <= 4) {
+        } else if (op[0] == 2 && op.size() == 3 && op[1] >= 0 && op[1] <= 4 && op[2] >= 0 && op[2] <= 4) {
             users.push_back({op[1], op[2]});
         } else if (op[0] == 9) {
             sched.insert(sched.end(), op.begin() + 1, op.end());
@@ -125,28 +207,31 @@ static void run_case(const vh::Case &cs) {
     long live0 = counted::live.load();
     {
         std::optional<SF> sf, sf2;
-        std::optional<Holder> prom;
+        std::optional<Holder<T>> prom;
+        future<void> gate;
+        std::optional<promise<void>> gprom;
         std::atomic<bool> pavail{false};
         std::vector<std::optional<SF>> uh(nu);
         std::unique_ptr<std::atomic<bool>[]> given(new std::atomic<bool>[nu + 1]);
         for (int j = 0; j < nu; j++) given[j] = false;
         std::vector<Seen> seen(nu);
-        std::vector<std::unique_ptr<CbCtx>> cbs(nu);
+        std::vector<std::unique_ptr<CbCtx<T>>> cbs(nu);
         long cdone = 0, res = -1;
+        if (mode == 5) gprom.emplace(gate.get_promise());   // relaxed exchange + in-place promise: no hook point
 
         std::vector<std::function<void()>> fns;
         // ---- creator
         fns.push_back([&] {
             switch (mode) {
                 case 0:
-                    sf.emplace([&](promise<counted> p) {
+                    sf.emplace([&](promise<T> p) {
                         prom.emplace(std::move(p));
                         pavail = true;
                     });
                     break;
                 case 1:
                     sf.emplace([&] {
-                        return future<counted>([&](promise<counted> p) {
+                        return future<T>([&](promise<T> p) {
                             prom.emplace(std::move(p));
                             pavail = true;
                         });
@@ -165,7 +250,10 @@ static void run_case(const vh::Case &cs) {
                     pavail = true;
                     break;
                 case 4:
-                    sf.emplace(SF::set_value(mval));
+                    sf.emplace(traits<T>::pre(mval));
+                    break;
+                case 5:
+                    sf.emplace([&] { return producer<T>(gate, &pavail, rkind, rdatum).start(); });
                     break;
             }
             for (int j = 0; j < nu; j++) {
@@ -190,10 +278,14 @@ static void run_case(const vh::Case &cs) {
             }
             ctl::block_until("xwait", [&] { return pavail.load(); });
             bool r = false;
-            switch (rkind) {
-                case 0: r = prom->p(counted(rdatum)); break;
-                case 1: r = prom->p(std::make_exception_ptr(test_exc(rdatum))); break;
-                case 2: r = prom->p(drop); break;
+            if (mode == 5) {
+                r = (*gprom)();      // opens the gate: the producer coroutine finishes on this thread
+            } else {
+                switch (rkind) {
+                    case 0: r = traits<T>::set(prom->p, rdatum); break;
+                    case 1: r = prom->p(std::make_exception_ptr(test_exc(rdatum))); break;
+                    case 2: r = prom->p(drop); break;
+                }
             }
             res = r;
         });
@@ -205,12 +297,37 @@ static void run_case(const vh::Case &cs) {
                 SF h = std::move(*uh[j]);
                 uh[j].reset();
                 Seen &s = seen[j];
-                if (d.cp) {
-                    ctl::point("sf_inc");
-                    SF h2 = h;
-                    ctl::point("sf_dec");
-                    h = SF();
-                    h = std::move(h2);
+                switch (d.cp) {
+                    case 1: {   // copy construction, original dropped
+                        ctl::point("sf_inc");
+                        SF h2 = h;
+                        ctl::point("sf_dec");
+                        h = SF();
+                        h = std::move(h2);
+                        break;
+                    }
+                    case 2: {   // copy assignment onto a live handle of another (ready) state, original dropped
+                        SF g = traits<T>::pre(d.kind + 1000);
+                        ctl::point("sf_inc");
+                        g = h;
+                        ctl::point("sf_dec");
+                        h = SF();
+                        h = std::move(g);
+                        break;
+                    }
+                    case 3: {   // move assignment onto a live handle of another (ready) state
+                        SF g = traits<T>::pre(d.kind + 2000);
+                        ctl::point("sf_inc");
+                        g = std::move(h);
+                        h = std::move(g);
+                        break;
+                    }
+                    case 4: {   // self assignment
+                        ctl::point("sf_inc");
+                        SF &alias = h;
+                        h = alias;
+                        break;
+                    }
                 }
                 switch (d.kind) {
                     case 0:
@@ -226,7 +343,7 @@ static void run_case(const vh::Case &cs) {
                         h = SF();
                         s.done = 1;
                         break;
-                    case 2: coro_waiter(std::move(h), s).detach(); break;
+                    case 2: coro_waiter<T>(std::move(h), s).detach(); break;
                     case 3:
                         h.sync();
                         read_into(h, s);
@@ -235,9 +352,9 @@ static void run_case(const vh::Case &cs) {
                         s.done = 1;
                         break;
                     case 4: {
-                        cbs[j].reset(new CbCtx(std::move(h), s));
-                        CbCtx &c = *cbs[j];
-                        if (c.aw.await_ready() || !c.aw.await_suspend(&CbCtx::fn, &c)) {
+                        cbs[j].reset(new CbCtx<T>(std::move(h), s));
+                        CbCtx<T> &c = *cbs[j];
+                        if (c.aw.await_ready() || !c.aw.await_suspend(&CbCtx<T>::fn, &c)) {
                             read_into(c.h, s);
                             s.runs++;
                             c.h = SF();
@@ -270,9 +387,15 @@ int main(int argc, char **argv) {
         if (done++ == 400) std::_Exit(42);
         std::printf("CASE %s\n", cs.name.c_str());
         std::fflush(stdout);
-        if (cs.engine == "sf") run_case(cs);
+        if (cs.engine == "sf") run_case<counted>(cs);
+        else if (cs.engine == "sf_void") run_case<void>(cs);
+        else if (cs.engine == "sf_uptr") run_case<std::unique_ptr<counted>>(cs);
+        else if (cs.engine == "sf_ref") run_case<counted &>(cs);
         std::printf("END\n");
         std::fflush(stdout);
+        // LSan keeps reporting an already reported leak in later checks of the same process: the leaking case is
+        // complete, continue the remaining cases in a fresh process so that the report is attributed to it alone
+        if (g_leaks) std::_Exit(42);
     }
     if (g_leaks) std::_Exit(0);  // already reported per case; skip the at-exit leak report
     return 0;
